@@ -173,10 +173,14 @@ JudgeNav(r) ==
                                    /\ w[Len(w)] = p[2]
                                    /\ At(r.PLb, p) = Len(w) - 1
                                    /\ At(r.PLw, p) = PathLen(r.L, w)
-                                   /\ At(r.PLd, p) = PathLen(r.Dm, w),
+                                   /\ At(r.PLd, p) = (IF \E x \in 1..(Len(w) - 1) : r.Dm[w[x]][w[x + 1]] >= INF
+                                                        THEN INF ELSE PathLen(r.Dm, w)),   \* inf nodal distances add up to inf
   (* "failed navigations are reported as infinite in all three"                   *)
+  (* (with finite nodal distances also the converse: an infinite entry anywhere means failure; a      *)
+  (*  caller-supplied D may hold inf, and then a SUCCESSFUL navigation has an infinite summed distance) *)
   Chk("FailedAreInfInAllThree", \A p \in Pairs(n) :
-                                   (At(r.PLb, p) = INF \/ At(r.PLw, p) = INF \/ At(r.PLd, p) = INF)
+                                   (At(r.PLb, p) = INF \/ At(r.PLw, p) = INF
+                                      \/ (At(r.PLd, p) = INF /\ \A i, j \in 1..n : r.Dm[i][j] < INF))
                                    => (At(r.PLb, p) = INF /\ At(r.PLw, p) = INF /\ At(r.PLd, p) = INF),
   (* "the success ratio is the fraction of ordered pairs that succeeded"          *)
   Chk("SuccessRatioIsFraction", NearFrac(r.sr, Cardinality(ok), n * (n - 1), 2),
